@@ -16,3 +16,23 @@ Proof.
   intros Hdet Hfile Hdec Hsp Hok Hn Hne Hf Hlf. unfold load_po, pofile. rewrite Hdet.
   rewrite (pofile_with_render C enc raw sp c pls Hfile Hdec Hsp Hok Hn Hne Hf Hlf). reflexivity.
 Qed.
+
+(* the loader fails only in its two own ways (UnicodeDecodeError of the whole-file decode, the parser's syntax error) *)
+Lemma machine_no_crash O : forall ls n lst p c, machine O ls n lst p <> Crash c.
+Proof. induction ls as [|l ls IH]; intros n lst p c; cbn [machine]; [discriminate|].
+  destruct l as [| |obs h a]; try apply IH. destruct a as [|y cur|d]; [apply IH| |discriminate].
+  destruct (process O y obs cur p); [apply IH|discriminate]. Qed.
+
+Theorem load_po_no_crash C raw : forall c, load_po C raw <> Crash c.
+Proof.
+  assert (Hp : forall O lines c, parse_lines O lines <> Crash c).
+  { intros O lines c. unfold parse_lines, run_machine. destruct (machine O (lex_lines true lines) 0 None init_pstate) as [[p l]| |] eqn:E; cbn [obind]; try discriminate.
+    exfalso. exact (machine_no_crash O _ _ _ _ _ E). }
+  assert (Hw : forall enc c, pofile_with C enc raw <> Crash c).
+  { intros enc c. unfold pofile_with. destruct (c_decode C _ raw); [|discriminate].
+    destruct (parse_lines _ _) eqn:E; try discriminate. exfalso. exact (Hp _ _ _ E). }
+  intros c. unfold load_po, pofile.
+  destruct (pofile_with C (detect_encoding (c_lookup C) raw) raw) as [l|[|e]|c'] eqn:E; try discriminate.
+  - destruct (pofile_with C s_latin1 raw) eqn:E2; cbn [obind]; try discriminate. exfalso. exact (Hw _ _ E2).
+  - exfalso. exact (Hw _ _ E).
+Qed.
